@@ -623,3 +623,17 @@ func UnguardedLeaf(ds *Describer, fn *ssa.Function, from ssa.Instruction, lf Lea
 	}
 	return Unguarded(ds, fn, from, func(in ssa.Instruction) bool { return in == lf.At }, guard)
 }
+
+// IfPos returns a source position for an If instruction (which has none of its own): that of its condition,
+// else of the first positioned instruction of its block.
+func IfPos(ifi *ssa.If) token.Pos {
+	if v, ok := ifi.Cond.(interface{ Pos() token.Pos }); ok && v.Pos().IsValid() {
+		return v.Pos()
+	}
+	for _, in := range ifi.Block().Instrs {
+		if in.Pos().IsValid() {
+			return in.Pos()
+		}
+	}
+	return token.NoPos
+}
